@@ -190,6 +190,9 @@ def check_case(ctx, case):
         return rec_raise("construct", arr, tb_)
     vals = gg.pylist(arr)
     n = len(vals)
+    if case["seed"] % 3 == 0:
+        arr.build_sindex(page_size=int(case["seed"] % 4) + 1)     # a spatial index exists on the array
+        ctx.count("arrays_with_built_index")
     own = None
     if tbt == "none":
         # default = the array's own total bounds (C13 decides those)
